@@ -1044,7 +1044,7 @@ class Qube(object):
 
         obj = Qube.__new__(cls)
         obj.__init__(np.zeros(shape + numer + denom, dtype=dtype),
-                     mask=mask, drank=len(denom))
+                     mask=mask, nrank=len(numer), drank=len(denom))
         return obj
 
     #===========================================================================
@@ -1066,7 +1066,7 @@ class Qube(object):
 
         obj = Qube.__new__(cls)
         obj.__init__(np.ones(shape + numer + denom, dtype=dtype),
-                     mask=mask, drank=len(denom))
+                     mask=mask, nrank=len(numer), drank=len(denom))
         return obj
 
     #===========================================================================
